@@ -534,10 +534,15 @@ class Scene(Geometry3D):
         """
         # get the area of every geometry that has an area property
         areas = {n: g.area for n, g in self.geometry.items() if hasattr(g, "area")}
-        # sum the area including instancing
-        return sum(
-            (areas.get(self.graph[n][1], 0.0) for n in self.graph.nodes_geometry), 0.0
-        )
+        # sum the area including instancing: an instance placed with
+        # a scaled transform has its area scaled by `scale ** 2`
+        total = 0.0
+        for node in self.graph.nodes_geometry:
+            transform, name = self.graph[node]
+            if name in areas:
+                scale = np.abs(np.linalg.det(transform[:3, :3])) ** (1.0 / 3.0)
+                total += areas[name] * scale**2
+        return total
 
     @caching.cache_decorator
     def volume(self) -> float64:
@@ -551,11 +556,15 @@ class Scene(Geometry3D):
           Summed area of every instanced geometry
         """
         # get the area of every geometry that has a volume attribute
-        volume = {n: g.volume for n, g in self.geometry.items() if hasattr(g, "area")}
-        # sum the area including instancing
-        return sum(
-            (volume.get(self.graph[n][1], 0.0) for n in self.graph.nodes_geometry), 0.0
-        )
+        volume = {n: g.volume for n, g in self.geometry.items() if hasattr(g, "volume")}
+        # sum the volume including instancing: the volume of an
+        # instance is scaled by the determinant of its transform
+        total = 0.0
+        for node in self.graph.nodes_geometry:
+            transform, name = self.graph[node]
+            if name in volume:
+                total += volume[name] * np.abs(np.linalg.det(transform[:3, :3]))
+        return total
 
     @caching.cache_decorator
     def triangles(self) -> NDArray[float64]:
